@@ -171,7 +171,7 @@ Definition with_imp (p : prog) (i : import) : prog := {| p_mod := p_mod p; p_imp
 Definition mutants_gen (g : gen) (p : prog) : list prog :=
   map (with_imp p) (rwI (p_mod p) g (p_imp p)) ++
   match import_decls (p_mod p) (p_imp p) with
-  | Some ds => map (with_tops p) (rwT (p_mod p) g (funs_of_decls ds) [scope_of_decls ds] (p_tops p))
+  | Some ds => map (with_tops p) (rwT (p_mod p) g (funs_of_decls (p_mod p) ds) [scope_of_decls ds] (p_tops p))
   | None => []
   end.
 
@@ -231,6 +231,7 @@ Definition nm_idecl (d : idecl) : list name :=
   | IVar _ x t | IConst _ x t => x :: nm_ty t
   | IFun _ f ps r => f :: flat_map (fun p => nm_ty (fst p)) ps ++ match r with Some t => nm_ty t | None => [] end
   | IStruct _ s _ fs => s :: flat_map (fun q => snd (fst q) :: nm_ty (snd q)) fs
+  | IAlias c s fs => c :: s :: fs
   end.
 
 Definition nm_prog (p : prog) : list name :=
@@ -276,7 +277,10 @@ Definition info_of (p : prog) : info :=
      i_nonvars := dedup (flat_map (fun t => match t with TFun f => [f_name f] | TStmt _ => [] end) (p_tops p) ++
                          flat_map (fun d => match d with IFun _ f _ _ => [f] | IStruct _ s _ _ => [s] | _ => [] end) M);
      i_priv_vars := flat_map (fun d => match d with IVar false x _ | IConst false x _ => [x] | _ => [] end) M;
-     i_priv_funs := flat_map (fun d => match d with IFun false f _ _ => [f] | _ => [] end) M;
+     i_priv_funs := flat_map (fun d => match d with
+                                       | IFun false f _ _ => [f]
+                                       | IAlias c s _ => if existsb (fun d' => match d' with IStruct true s' _ _ => Nat.eqb s s' | _ => false end) M then [] else [c]
+                                       | _ => [] end) M;
      i_priv_fields := dedup (flat_map (fun d => match d with
                                                 | IStruct _ _ _ fs => flat_map (fun q => match q with (false, f, _) => [f] | _ => [] end) fs
                                                 | _ => [] end) M);
